@@ -188,11 +188,16 @@ pub fn array_constructor_fn(
     if args.len() == 1
         && let Some(JsValue::Number(n)) = args.first()
     {
+        // The length must be a uint32, and small enough to materialise
         let len = *n as u32;
-        let mut elements = Vec::with_capacity(len as usize);
-        for _ in 0..len {
-            elements.push(JsValue::Undefined);
+        if len as f64 != *n || len as usize > crate::value::MAX_DENSE_ARRAY_LENGTH {
+            return Err(JsError::range_error("Invalid array length"));
         }
+        let mut elements = Vec::new();
+        if elements.try_reserve_exact(len as usize).is_err() {
+            return Err(JsError::range_error("Invalid array length"));
+        }
+        elements.resize(len as usize, JsValue::Undefined);
         let guard = interp.heap.create_guard();
         let arr = interp.create_array_from(&guard, elements);
         return Ok(Guarded::with_guard(JsValue::Object(arr), guard));
